@@ -40,10 +40,10 @@ def _C():
 
 
 def gen_container(rng):
-    kind = rng.choice(["indexed", "xy", "hist", "hist_manual", "xy"])
+    kind = rng.choice(["indexed", "xy", "hist", "hist_manual", "xy", "unbinned"])
     n = rng.randint(2, 6)
     spec = {"kind": kind, "n": n, "label": rng.choice([None, "my data"]), "axis_labels": rng.choice([None, ["t [s]", "U [V]"]])}
-    if kind == "indexed":
+    if kind in ("indexed", "unbinned"):
         spec["data"] = [round(1.0 + 3.0 * rng.random(), 3) for _ in range(n)]
     elif kind == "xy":
         spec["x"] = [float(i) + round(rng.random(), 3) for i in range(n)]
@@ -57,7 +57,7 @@ def gen_container(rng):
             spec["underflow"] = float(rng.randint(0, 4))
             spec["overflow"] = float(rng.randint(5, 9))
     srcs = []
-    for i in range(rng.randint(0, 4)):
+    for i in range(rng.randint(0, 4) if kind != "unbinned" else 0):  # (unbinned containers take no uncertainty sources)
         ax = rng.choice(["x", "y"]) if kind == "xy" else None
         rel = rng.random() < 0.35 and kind != "hist_manual"
         if rng.random() < 0.65:
@@ -82,6 +82,8 @@ def build_container(spec):
     kind = spec["kind"]
     if kind == "indexed":
         c = k.IndexedContainer(list(spec["data"]))
+    elif kind == "unbinned":
+        c = k.UnbinnedContainer(list(spec["data"]))
     elif kind == "xy":
         c = k.XYContainer(list(spec["x"]), list(spec["y"]))
     elif kind == "hist":
@@ -291,7 +293,7 @@ def constraint_obs(c):
 
 
 def gen_model(rng):
-    kind = rng.choice(["xy", "indexed", "hist"])
+    kind = rng.choice(["xy", "indexed", "hist", "unbinned", "function"])
     spec = {"kind": kind}
     if kind == "xy":
         mk = rng.choice(sorted(iolib.XY))
@@ -299,6 +301,11 @@ def gen_model(rng):
     elif kind == "indexed":
         mk = rng.choice(sorted(iolib.IDX))
         spec.update({"model": mk, "pars": list(iolib.IDX[mk][3])})
+    elif kind == "unbinned":
+        spec.update({"model": "io_normal", "d": [round(-2.0 + 4.0 * rng.random(), 3) for _ in range(rng.randint(3, 8))], "pars": [round(0.2 * rng.choice([0.5, 1.0, 2.0]), 3), 1.3]})
+    elif kind == "function":
+        fk = rng.choice(["xy", "indexed"])
+        spec.update({"fkind": fk, "model": rng.choice(sorted(iolib.XY)) if fk == "xy" else rng.choice(sorted(iolib.IDX))})
     else:
         spec.update({"model": "io_normal", "edges": [-2.0, -1.0, 0.0, 1.0, 2.0], "pars": [0.2, 1.3], "bin_eval": rng.choice(["simpson", "trapezoid"])})
     spec["rel_err"] = rng.choice([None, 0.1])
@@ -315,6 +322,14 @@ def build_model(spec):
         m = k.IndexedParametricModel(iolib.IDX[spec["model"]][0], list(spec["pars"]))
         if spec["rel_err"]:
             m.add_error(spec["rel_err"], name="m", relative=True)
+    elif spec["kind"] == "unbinned":
+        m = importlib.import_module("kafe2.fit.unbinned.model").UnbinnedParametricModel(list(spec["d"]), iolib.io_normal, list(spec["pars"]))
+    elif spec["kind"] == "function":
+        # the model function object itself (what a fit wraps the user's function in)
+        if spec["fkind"] == "xy":
+            m = importlib.import_module("kafe2.fit._base").ModelFunctionBase(iolib.XY[spec["model"]][0])
+        else:
+            m = importlib.import_module("kafe2.fit.indexed").IndexedModelFunction(iolib.IDX[spec["model"]][0])
     else:
         e = spec["edges"]
         m = k.HistParametricModel(len(e) - 1, (e[0], e[-1]), iolib.io_normal, list(spec["pars"]), bin_edges=list(e), bin_evaluation=spec["bin_eval"])
@@ -324,6 +339,23 @@ def build_model(spec):
 
 
 def model_obs(m):
+    if not hasattr(m, "parameters"):
+        # a model function object: name, signature, defaults, values at probe points, formatter strings
+        names = list(m.signature.parameters) if hasattr(m, "signature") else []
+        dflt = [float(v) for v in m.defaults]
+        o = {"class": type(m).__name__, "name": m.name, "args": names, "defaults": np.array(dflt, dtype=float), "parcount": int(m.parcount)}
+        if type(m).__name__ == "IndexedModelFunction":
+            o["values"] = np.array(m(*dflt), dtype=float)
+            o["values2"] = np.array(m(*[1.1 * v + 0.1 for v in dflt]), dtype=float)
+        else:
+            xs = np.array([0.5, 1.0, 2.5])
+            o["values"] = np.array(m(xs, *dflt), dtype=float)
+            o["values2"] = np.array(m(xs, *[1.1 * v + 0.1 for v in dflt]), dtype=float)
+        try:
+            o["latex"] = m.formatter.get_formatted(format_as_latex=True, with_expression=True)
+        except Exception as e:
+            o["latex"] = "raised " + type(e).__name__
+        return o
     return {"class": type(m).__name__, "data": np.array(m.data, dtype=float), "parameters": np.array(m.parameters, dtype=float), "cov": np.array(m.y_cov_mat if hasattr(m, "y_cov_mat") else m.cov_mat, dtype=float)}
 
 
@@ -450,6 +482,7 @@ class IOMachine(Machine):
             build, obs = {"container": (build_container, container_obs), "fit": (build_fit, None), "constraint": (build_constraint, constraint_obs),
                           "model": (build_model, model_obs)}[kind]
             obj = build(spec)
+            res.bump("object_" + type(obj).__name__)
             points = None
             if kind == "fit":
                 if spec.get("do_fit"):
